@@ -12,7 +12,7 @@ HEADER = 'From WM Require Import Base.Prelude RouterLife.Model RouterLife.Monito
 # which variant of the model corresponds to the code in the repo (flipped by the fix: commits)
 FIXED_D4 = True
 FIXED_D14 = True
-FIXED_D15 = False
+FIXED_D15 = True
 
 CODES = {
     1: ('C10/running-before-subscribed', 'Running() was closed while a handler registered before Run had no subscription'),
